@@ -36,6 +36,14 @@ fn parse_length(i: &[u8]) -> nom::IResult<&[u8], usize> {
     } else {
         let len = len - 128;
         let (i, b) = take(len)(i)?;
+        // parse_uint() is exact up to eight significant octets; a wider length can't be
+        // that of anything which will ever arrive, and must not be cut down to its low octets.
+        if b.iter().skip_while(|&&o| o == 0).count() > 8 {
+            return Err(nom::Err::Failure(Error::from_error_kind(
+                i,
+                ErrorKind::TooLarge,
+            )));
+        }
         let (_, len) = parse_uint(b)?;
         Ok((
             i,
